@@ -98,6 +98,24 @@ func (e *Enc) Run() (err error) {
 	if err := e.checkExit(); err != nil {
 		return err
 	}
+	// every ghost hook / anchored assert must have matched a call site (a contract that anchors
+	// to a call that no longer exists decides nothing)
+	if e.fc != nil {
+		for hi, h := range e.fc.Hooks {
+			if !e.hookHit[fmt.Sprintf("ghost#%d", hi)] {
+				e.obls = append(e.obls, &Obligation{Name: e.key + fmt.Sprintf("/ANCHOR.ghost#%d", hi), Class: "ANCHOR", Props: e.fc.Props, Expect: "unsat", Status: "failed",
+					Desc: fmt.Sprintf("ghost hook '%s call %s #%d' matches no call site in the function", h.When, h.Callee, h.Ordinal), FuncKey: e.key,
+					Result: SolverResult{Solver: "govc", Answer: "anchor-missing"}})
+			}
+		}
+		for ai, a := range e.fc.Asserts {
+			if !e.hookHit[fmt.Sprintf("assert#%d", ai)] {
+				e.obls = append(e.obls, &Obligation{Name: e.key + fmt.Sprintf("/ANCHOR.assert#%d", ai), Class: "ANCHOR", Props: e.fc.Props, Expect: "unsat", Status: "failed",
+					Desc: fmt.Sprintf("assert '%s call %s #%d' matches no call site in the function", a.When, a.Callee, a.Ordinal), FuncKey: e.key,
+					Result: SolverResult{Solver: "govc", Answer: "anchor-missing"}})
+			}
+		}
+	}
 	return nil
 }
 
